@@ -1,3 +1,253 @@
-from engine.check import Check
-def xyb_grey(ck, tier): pass
-def hsl_grey(ck, tier): pass
+"""XYB analyses shared by C04, C05 and C16 (and the HSL grey clause of C16).
+
+The kernels are extracted from MIR with `yuvxyb_math::cbrtf` kept as an application node;
+in the error analysis an application is an atom c = cbrtf(m) whose argument's exact real
+polynomial (the opsin mix) and rounding bound are known.  Assumption A-cbrt (cbrtf within
+1 ulp on normal arguments - C18's accuracy clause, not decided statically) converts a
+bound on the mix into a bound on the cube root; everything else is exact rational
+arithmetic on the constants the code computes."""
+from __future__ import annotations
+from fractions import Fraction as Fr
+import math
+from engine.values import Unsupported
+from engine.resolve import Resolver
+from engine.simplify import fold, simplify_finite
+from engine import frange as FR
+from engine.apps import app_name
+from .common import *
+from .conv import *
+
+OPSIN = spec('opsin')
+A_IDEAL = [[Fr(x) for x in row] for row in OPSIN['matrix']]
+B_IDEAL = Fr(OPSIN['bias'])
+U32 = Fr(1, 2 ** 24)
+ULP_CBRT = Fr(1, 2 ** 23)        # A-cbrt: |cbrtf(x) - cbrt(x)| <= 1 ulp <= 2^-23 * cbrt(x)
+
+def cbrt_hi(x):      # upper bound of the real cube root of a non-negative rational
+    return Fr(float(x) ** (1.0 / 3.0)) * (1 + Fr(1, 10 ** 9)) + Fr(1, 10 ** 30)
+def cbrt_lo(x):
+    return max(Fr(0), Fr(float(x) ** (1.0 / 3.0)) * (1 - Fr(1, 10 ** 9)))
+
+def forward_kernel(ctx):
+    it, marks, results = run_validated(ctx, 'LinearRgb->Xyb', 'u16', 'BT709', 'BT1886', 'BT709', bd=10)
+    s, v = results[0][0]
+    c = ctx.crate
+    dims_ok = field(c, v, 'width') is X.sym(X.USIZE, 'linearrgb.width') and field(c, v, 'height') is X.sym(X.USIZE, 'linearrgb.height')
+    obj, buf = vec_buf(s, field(c, v, 'data'))
+    k, val, R = element_kernel(it, s, obj)
+    return it, val, dims_ok
+
+def pixel_atoms(val, prefix):
+    out = {}
+    for e in scalars(val):
+        for n in X.walk(e):
+            if n.op == 'load' and X.is_float(n.ty) and n.args[5].startswith(prefix):
+                out[n.args[4][0]] = n
+    return out
+
+def strip_clamp0(e):
+    """select(lt(v, 0), 0, v) -> v   (the clamp at zero in front of the cube root)"""
+    if e.op == 'select':
+        c, a, b = e.args
+        if c.op == 'lt' and c.args[0] is b and c.args[1].is_const and c.args[1].val == 0.0 and a.is_const and a.val == 0.0:
+            return b, True
+    return e, False
+
+class Forward:
+    """structure of the forward kernel: out_k = sum_i w_ki * c_i + const_k, c_i = cbrtf(clamp0(m_i))"""
+    def __init__(self, ctx, lo=Fr(0), hi=Fr(4)):
+        self.ctx = ctx
+        self.it, self.val, self.dims_ok = forward_kernel(ctx)
+        self.rgb = pixel_atoms(self.val, 'linearrgb.data')
+        if sorted(self.rgb) != [0, 1, 2]:
+            raise Unsupported('forward XYB kernel does not read the three components of its pixel')
+        rng = lambda n: (lo, hi) if X.is_float(n.ty) else None
+        self.an = Analyzer(atom_range=rng)
+        self.out = [self.an.ev(e) for e in self.val.fields]
+        apps = {}
+        for a in self.out:
+            if a.p.degree() > 1:
+                raise Unsupported('forward XYB kernel is not affine in the cube roots')
+            for aid in a.p.atoms():
+                info = self.an.atom_info[aid]
+                if info.get('kind') != 'app' or info.get('name') != 'cbrtf':
+                    raise Unsupported(f"forward XYB kernel atom of kind {info.get('kind')}")
+                apps[aid] = info
+        self.apps = apps
+        # mixes
+        self.mix = {}
+        for aid, info in apps.items():
+            arg = info['argnodes'][0]
+            v, clamped = strip_clamp0(arg)
+            a = self.an.ev(v)
+            if a.p.degree() > 1:
+                raise Unsupported('opsin mix is not affine in the pixel')
+            coef = [a.p.coef(self.rgb[j].id) for j in range(3)]
+            self.mix[aid] = dict(coef=coef, const=a.p.constant(), err=a.err, clamped=clamped, node=v, absf=a)
+
+    def order(self):
+        """atom ids ordered as (L, M, S): identified by the output structure X=(L-M)/2, Y=(L+M)/2, B=S"""
+        X_, Y_, B_ = self.out
+        s_ids = list(B_.p.atoms())
+        if len(s_ids) != 1 or B_.p.coef(s_ids[0]) != 1:
+            return None
+        s = s_ids[0]
+        lm = [a for a in X_.p.atoms()]
+        if len(lm) != 2 or set(lm) != set(Y_.p.atoms()):
+            return None
+        l = [a for a in lm if X_.p.coef(a) == Fr(1, 2)]
+        m = [a for a in lm if X_.p.coef(a) == Fr(-1, 2)]
+        if len(l) != 1 or len(m) != 1 or Y_.p.coef(l[0]) != Fr(1, 2) or Y_.p.coef(m[0]) != Fr(1, 2):
+            return None
+        return l[0], m[0], s
+
+def rel_dev(code, ideal):
+    return abs(code - ideal) / abs(ideal) if ideal != 0 else (Fr(0) if code == 0 else Fr(10))
+
+def g_error_cube(F, aid, i, hi=Fr(4)):
+    """bound of |G_i - L_i*| on [0,hi]^3 where all terms of the mix are non-negative"""
+    mx = F.mix[aid]
+    if any(c < 0 for c in mx['coef']) or mx['const'] <= 0:
+        raise Unsupported('opsin mix has a negative coefficient')
+    rho = max([rel_dev(mx['coef'][j], A_IDEAL[i][j]) for j in range(3)] + [rel_dev(mx['const'], B_IDEAL)])
+    gamma3 = 3 * U32 / (1 - 3 * U32)
+    rho = rho + gamma3 + rho * gamma3
+    mstar_max = sum(A_IDEAL[i]) * hi + B_IDEAL
+    c_max = cbrt_hi(mstar_max * (1 + rho))
+    return c_max * (ULP_CBRT + rho / 3 + rho * rho), rho, c_max
+
+def const_dev(F, k):
+    """deviation of the folded additive constants from -cbrt(b) combinations (exact value known)"""
+    return F.out[k].p.constant()
+
+def check_c04(ck, ctx, b, tier):
+    base = f"C04/{b}"
+    F = Forward(ctx)
+    ck.count('kernels')
+    ck.ob(base + '/dims', 'PROVED' if F.dims_ok else 'REFUTED', 'width and height are copied from the source', nontrivial=False)
+    order = F.order()
+    if order is None:
+        ck.ob(base + '/structure', 'REFUTED', f"output is not X=(L-M)/2, Y=(L+M)/2, B=S of three cube roots: {[str(o.p) for o in F.out]}")
+        return
+    ck.ob(base + '/structure', 'PROVED', 'X=(L-M)/2, Y=(L+M)/2, B=S with L,M,S = cbrtf(max(0, mix_i)) + a_i')
+    cbrt_b = Fr(float(B_IDEAL) ** (1.0 / 3.0))
+    # matrix rows must match libjxl's rows in the order L, M, S
+    for i, aid in enumerate(order):
+        mx = F.mix[aid]
+        dev = max(abs(mx['coef'][j] - A_IDEAL[i][j]) for j in range(3))
+        ok = dev <= Fr(1, 10 ** 6) and abs(mx['const'] - B_IDEAL) <= Fr(1, 10 ** 8) and mx['clamped']
+        ck.ob(f"{base}/row{i}", 'PROVED' if ok else 'REFUTED',
+              f"mix {i}: coefficients {[float(c) for c in mx['coef']]} + {float(mx['const'])} (libjxl: {[float(c) for c in A_IDEAL[i]]} + {float(B_IDEAL)})" + ('' if mx['clamped'] else '; NOT clamped at 0'))
+    # additive constants: a_i = -cbrtf(bias) folded; ideal -cbrt(b)
+    # --- cube [0,4]^3
+    eps = []
+    for i, aid in enumerate(order):
+        e, rho, cmax = g_error_cube(F, aid, i)
+        eps.append(e)
+    consts = [F.out[k].p.constant() for k in range(3)]
+    ideal_consts = [Fr(0), -cbrt_b, -cbrt_b]
+    round_g = U32 * Fr(17, 10)               # rounding of c_i + a_i, |G| <= 1.7
+    tot = [Fr(1, 2) * (eps[0] + eps[1]) + round_g + U32 * 2, Fr(1, 2) * (eps[0] + eps[1]) + round_g + U32 * 2, eps[2] + round_g]
+    for k, nm in enumerate('XYB'):
+        bound = tot[k] + abs(consts[k] - ideal_consts[k]) + F.out[k].err
+        ck.ob(f"{base}/cube/{nm}", 'PROVED' if bound <= Fr(2, 10 ** 6) else 'UNDECIDED',
+              f"|{nm} - ideal| <= {float(bound):.3g} on [0,4]^3 (given A-cbrt)")
+        ck.sample(dict(component=nm, bound=float(bound), const=float(consts[k]), ideal_const=float(ideal_consts[k])))
+    # --- negative-component stratum of [-1,4]^3: mixes >= 0.05 (Lipschitz) or <= -1e-3 (clamped)
+    worst = Fr(0)
+    for i, aid in enumerate(order):
+        mx = F.mix[aid]
+        D0 = sum(abs(mx['coef'][j] - A_IDEAL[i][j]) * 4 for j in range(3)) + abs(mx['const'] - B_IDEAL)
+        P1 = abs(mx['coef'][2]) * 4 + abs(mx['const']); P2 = abs(mx['coef'][1]) * 4 + P1
+        best = Fr(0)
+        m = Fr(5, 100)
+        grid = [Fr(5, 100) * Fr(11, 10) ** k for k in range(0, 48)]
+        for a, bnd in zip(grid, grid[1:]):
+            D = D0 + U32 * (P1 + P2 + bnd) * (1 + U32)
+            lip = 1 / (3 * cbrt_lo((a - D)) ** 2)
+            e = D * lip + ULP_CBRT * cbrt_hi(bnd + D)
+            best = max(best, e)
+            if a > Fr(41, 10): break
+        worst = max(worst, best)
+        # clamped side: computed mix <= -1e-3 + D < 0  -> cbrtf(0.0) + a_i, a pixel-independent constant
+        Dn = D0 + U32 * (P1 + P2 + 1)
+        if not (Fr(-1, 1000) + Dn < 0):
+            ck.ob(f"{base}/stratum/clamp{i}", 'UNDECIDED', 'mix <= -1e-3 not shown to be clamped')
+    zero = fold(X.node('app', (list(F.apps.values())[0]['node'].args[0], X.const(X.F32, 0.0)), X.F32), None, ctx.crate)
+    gz = None
+    if zero.is_const:
+        gz = Fr(zero.val)
+    for k, nm in enumerate('XYB'):
+        bound = (worst if nm == 'B' else worst) + round_g + abs(consts[k] - ideal_consts[k]) + F.out[k].err + U32 * 2
+        ck.ob(f"{base}/stratum/{nm}", 'PROVED' if bound <= Fr(2, 10 ** 6) else 'UNDECIDED',
+              f"|{nm} - ideal| <= {float(bound):.3g} for mixes >= 0.05 with negative components (given A-cbrt)")
+    if gz is None:
+        ck.ob(f"{base}/stratum/clamped", 'UNDECIDED', 'cbrtf(0.0) does not fold')
+    else:
+        ck.ob(f"{base}/stratum/clamped", 'PROVED' if abs(gz) + U32 <= Fr(2, 10 ** 6) else 'REFUTED',
+              f"clamped mixes give cbrtf(0.0) = {float(gz):.3g} (ideal 0) before the bias term")
+
+def check_c16_xyb(ck, ctx, b):
+    base = f"C16/xyb/{b}"
+    F = Forward(ctx)
+    ck.count('xyb_kernels')
+    order = F.order()
+    if order is None:
+        ck.ob(base, 'REFUTED', 'forward kernel is not X=(L-M)/2, Y=(L+M)/2, B=S'); return
+    # black: constant folding of the real kernel (cbrtf body included)
+    rgb = F.rgb
+    z = {rgb[j].id: X.const(X.F32, 0.0) for j in range(3)}
+    vals = [fold(e, z, ctx.crate) for e in F.val.fields]
+    if all(v.is_const for v in vals):
+        dev = max(abs(v.val) for v in vals)
+        ck.ob(base + '/black', 'PROVED' if dev <= 1e-6 else 'REFUTED', f"black maps to {[v.val for v in vals]}")
+    else:
+        ck.ob(base + '/black', 'UNDECIDED', 'kernel does not fold at black')
+    # grey axis g in [0,4]: |X| and |Y-B|
+    S = [sum(F.mix[a]['coef']) for a in order]
+    bs = [F.mix[a]['const'] for a in order]
+    consts = [F.out[k].p.constant() for k in range(3)]
+    worstX = worstYB = Fr(0)
+    grid = [Fr(0)] + [Fr(4) * Fr(9, 10) ** k for k in range(120, -1, -1)]
+    for gl, gh in zip(grid, grid[1:]):
+        m_lo = min(S[i] * gl + bs[i] for i in range(3)); m_hi = max(S[i] * gh + bs[i] for i in range(3))
+        D = lambda i, j: gh * abs(S[i] - S[j]) + abs(bs[i] - bs[j]) + 2 * 3 * U32 * m_hi * (1 + U32)
+        lip = 1 / (3 * cbrt_lo(m_lo * (1 - 4 * U32)) ** 2)
+        c_hi = cbrt_hi(m_hi)
+        dX = Fr(1, 2) * (D(0, 1) * lip + 2 * ULP_CBRT * c_hi) + abs(consts[0]) + U32 * (2 * Fr(17, 10) + 1)
+        dYB = Fr(1, 2) * (D(0, 2) + D(1, 2)) * lip + 2 * ULP_CBRT * c_hi + abs(consts[1] - consts[2]) + U32 * (3 * Fr(17, 10) + 1)
+        worstX, worstYB = max(worstX, dX), max(worstYB, dYB)
+    ck.ob(base + '/grey-X', 'PROVED' if worstX <= Fr(1, 10 ** 6) else 'UNDECIDED', f"|X| <= {float(worstX):.3g} on the grey axis [0,4] (row sums {[float(s) for s in S]})")
+    ck.ob(base + '/grey-YB', 'PROVED' if worstYB <= Fr(1, 10 ** 6) else 'UNDECIDED', f"|Y-B| <= {float(worstYB):.3g} on the grey axis [0,4]")
+    if max(abs(S[i] - S[j]) for i in range(3) for j in range(3)) > Fr(1, 10 ** 5) or max(abs(bs[i] - bs[j]) for i in range(3) for j in range(3)) > Fr(1, 10 ** 7):
+        ck.ob(base + '/row-sums', 'REFUTED', f"opsin row sums {[float(s) for s in S]} / biases {[float(x) for x in bs]} are not equal: greys are not neutral in XYB")
+
+def xyb_grey(ck, tier):
+    for b in (('K1',) if tier == 'quick' else ('K1', 'K2')):
+        ctx = Ctx(b)
+        try:
+            check_c16_xyb(ck, ctx, b)
+        except Unsupported as ex:
+            ck.ob(f"C16/xyb/{b}", 'UNDECIDED', f"analysis lost: {ex}")
+
+def hsl_grey(ck, tier):
+    ctx = Ctx('K1')
+    base = 'C16/hsl/K1'
+    try:
+        it, marks, results = run_validated(ctx, 'LinearRgb->Hsl', 'u16', 'BT709', 'BT1886', 'BT709', bd=10)
+        s, v = results[0][0]
+        obj, buf = vec_buf(s, field(ctx.crate, v, 'data'))
+        k, val, R = element_kernel(it, s, obj)
+        atoms = pixel_atoms(val, 'linearrgb.data')
+        g = X.sym(X.F32, 'grey')
+        m = {atoms[j].id: g for j in atoms}
+        comps = [simplify_finite(X.substitute(e, m)) for e in val.fields]
+        FR.CRATE[0] = ctx.crate
+        at = lambda n: (0.0, 1.0, False) if n is g else None
+        rh = FR.frange(comps[0], None, at); rs = FR.frange(comps[1], None, at)
+        ck.count('hsl_kernels')
+        ck.ob(base + '/hue', 'PROVED' if rh[:2] == (0.0, 0.0) and not rh[2] else 'REFUTED', f"hue of a grey is {rh}")
+        ck.ob(base + '/saturation', 'PROVED' if rs[:2] == (0.0, 0.0) and not rs[2] else 'REFUTED', f"saturation of a grey is {rs}")
+        ck.ob(base + '/lightness', 'PROVED' if comps[2] is g else 'REFUTED', f"lightness of grey g is {X.show(comps[2], 5)} (must be g exactly)")
+    except Unsupported as ex:
+        ck.ob(base, 'UNDECIDED', f"analysis lost: {ex}")
